@@ -84,6 +84,7 @@ structure Proc where
   rest : List Site              -- sites still to be visited
   threads : List Thread
   sigStop : Bool := false       -- stopped in the signal-delivery-stop of the fatal signal
+  entered : Bool := false       -- the entry-point stop has been handled (rendezvous, shared-library mappings known)
 
 structure Wp where
   num : Nat
@@ -119,6 +120,8 @@ structure St where
   nextWp : Nat := 1             -- GLOBAL_WP_COUNTER
   lastSeen : Option Dr7 := none -- `WatchpointRegistry::last_seen_state`
   log : List Ev := []
+  staleGen : Bool := false      -- the current process was created by a restart that found a registry left over by a
+                                -- death by signal: the clean-up order then depends on hash-map iteration (not compared)
 
 inductive Out
   | ok | none | err
@@ -281,11 +284,6 @@ def refreshWps (s : St) : St :=
     { s with wps := [] }
 
 /-! ### running -/
-/-- `PTRACE_CONT` + `waitpid` of the main thread: skip sites until one carries an INT3 -/
-def runSites (code : Addr → Nat) : List Site → List Site
-  | [] => []
-  | x :: r => if code x.addr == INT3 then x :: r else runSites code r
-
 /-- threads alive at a stop: the first `n` known ones, new ones get the last seen DR7 image from
 `distribute_to_tracee` (the kernel starts them with cleared debug registers); all are in ptrace-stop -/
 def threadsAt (ts : List Thread) (n : Nat) (d : Dr7) : List Thread :=
@@ -295,6 +293,14 @@ def stopAt (s : St) (n : Nat) : St :=
   let d := s.lastSeen.getD Dr7.clear
   { s with proc := { s.proc with threads := threadsAt s.proc.threads n d },
            log := s.log ++ (if maskOf d != 0 then List.replicate (n - s.proc.threads.length) (Ev.dr (maskOf d)) else []) }
+
+/-- `PTRACE_CONT` + `waitpid`: the main thread passes sites until one carries an INT3; at every site it reaches, the
+threads alive there are known to the tracer (new ones received the last seen DR7 image) -/
+def runFrom (s : St) : List Site → St
+  | [] => { s with proc := { s.proc with rest := [] } }
+  | x :: r =>
+    let s1 := stopAt s x.nthreads
+    if s1.proc.code x.addr == INT3 then { s1 with proc := { s1.proc with rest := x :: r } } else runFrom s1 r
 
 /-- `step_over_breakpoint` -/
 def stepOver (s : St) : St :=
@@ -329,24 +335,26 @@ def finish (s : St) : St × Out :=
   | .abort g n =>
     if s.proc.sigStop then (onKilled s g, .err)
     else let s1 := stopAt s n
-      ({ s1 with proc := { s1.proc with sigStop := true } }, .signal g)
+      -- the stop is reported through `ecx_switch_thread`, which needs the mappings of the shared libraries: they
+      -- are known only once the entry-point stop has been handled; otherwise the command fails (state unchanged)
+      ({ s1 with proc := { s1.proc with sigStop := true } }, if s.proc.entered then .signal g else .err)
 
 /-- the loop of `continue_execution` -/
 def traceLoop : Nat → St → St × Out
   | 0, s => (s, .outOfFuel)
   | fuel + 1, s =>
-    let s1 := { s with proc := { s.proc with rest := runSites s.proc.code s.proc.rest } }
+    let s1 := runFrom s s.proc.rest
     match s1.proc.rest with
     | [] => finish s1
     | x :: _ =>
-      let s2 := stopAt s1 x.nthreads
-      match find? s2.active x.addr with
-      | none => (s2, .corrupt)
+      match find? s1.active x.addr with
+      | none => (s1, .corrupt)
       | some b =>
         match b.kind with
-        | .user => (s2, .stop x.addr b.num)
-        | .linker => traceLoop fuel (stepOver s2)
+        | .user => (s1, .stop x.addr b.num)
+        | .linker => traceLoop fuel (stepOver s1)
         | .entry =>
+          let s2 := { s1 with proc := { s1.proc with entered := true } }
           let s3 := refreshWps (enableAll s2)
           let s4 := addAndEnable s3 { addr := s3.prog.linker, kind := .linker, num := 0 }
           traceLoop fuel (stepOver s4)
@@ -377,7 +385,7 @@ def restart (s : St) : St × Out :=
     | .inProgress => disableAll (disableWps s)
     | _ => s
   let s2 := if s1.status != .exited then killCur s1 else s1
-  startFlow (install s2)
+  startFlow (install { s2 with staleGen := s.status == .exited && !s.active.isEmpty })
 
 /-- PTRACE_DETACH of every tracee, then SIGCONT to the process -/
 def releaseThreads (s : St) : St :=
@@ -462,7 +470,7 @@ carries no breakpoint as long as the debugger has not restarted the program). -/
 def initAttached (p : Prog) (skip n : Nat) : St :=
   { prog := p,
     proc := { child := false, code := p.orig, rest := { addr := p.linker, nthreads := n } :: p.full.drop skip,
-              threads := List.replicate n ({} : Thread) },
+              threads := List.replicate n ({} : Thread), entered := true },
     status := .inProgress, external := true,
     uninit := [{ key := { global := true, addr := p.entry }, kind := .entry, num := 0 }] }
 
